@@ -55,6 +55,9 @@ def run_scenario(exe, text, workdir, variant="plain", timeout=20):
         cls = "exception"
         m = re.search(r"terminate called[^\n]*\n?[^\n]*", err)
         detail = m.group(0).replace("\n", " ")[:300]
+    elif rc == -signal.SIGXFSZ:
+        # the harness's own output-size limit: not an event of the property (the case is counted as skipped)
+        return {"cls": "ok", "detail": "output larger than the harness limit", "out": out + "\nEXIT\n", "rc": rc, "skipped": True}
     elif rc < 0:
         try:
             cls = "signal:" + signal.Signals(-rc).name
